@@ -149,6 +149,22 @@ class CompilerTheory(Theory):
                 return SV('Str', '(str.++ %s (str.from_int %s))' % (a.e, b.e))
         return None
 
+    def ev_JoinedStr(self, ex, e, st):
+        """f"<text>{<int expression>}" (no conversion, no format spec) is "<text>" + str(<int>): the label form of get_cut_if_label"""
+        vals = e.values
+        if len(vals) == 2 and isinstance(vals[0], ast.Constant) and isinstance(vals[0].value, str) and isinstance(vals[1], ast.FormattedValue) \
+                and vals[1].conversion in (-1, 115) and vals[1].format_spec is None:
+            outs = []
+            for st2, v in ex.eval(vals[1].value, st):
+                if not isinstance(v, SV) or v.sort != 'Int':
+                    return None
+                if vals[0].value == 'cutIf':
+                    outs.append((st2, SV('Label', v.e)))
+                else:
+                    outs.append((st2, SV('Str', '(str.++ %s (str.from_int %s))' % (smt_str(vals[0].value), v.e))))
+            return outs
+        return None
+
     def equal(self, ex, e, op, a, b, st):
         if a.sort == 'Label' and b.sort == 'Label':
             return EQ(a.e, b.e)
